@@ -56,6 +56,12 @@ CHECKS["C01"] = dict(
   text="All 3304 well-formed cells of schema kind (28) x position (14) x required x nullable x ref form are generated with client on and, in rotation, with the other flag sets and 9 base-path forms, plus name-shape (18 names x 8 sites), free-text-shape (11 texts x 9 sites) and configuration specs; each output is parsed, gofmt-checked and type-checked against the standard library; TLC applies the protocol 'success => well-formed output, error => message, never a swallowed goimports error'. Go's static semantics are observed, not modelled (exploration).",
   note="go/types with the source importer stands for 'compiles'. Ten open root causes are listed in known_findings.txt with TLA+ selectors on the abstract cell; three were repaired. Custom Go types and custom Maybe/Nullable are outside the dialect.")
 
+CHECKS["C15"] = dict(
+  level="exploration", design="§4 C15, §12, spec/Dialect.tla (ResultOK, KFCell), spec/Trace_Gen.tla",
+  technique="structural mutation of carrier specs at every JSON-pointer site; real generator in worker processes under recover() and a time limit, plus the real CLI; result protocol (no panic, error non-empty and located, exit status agrees) judged by TLC (Trace_Gen)",
+  text="Every mutation operator (delete key, null, type swaps, empty object/array, unsupported type/format, dangling / wrong-section / cyclic $ref, content parameters, cookie parameters, partial / undeclared / slash-less path templates, non-string server-variable defaults) is applied at every site of two carrier specs (quick: all keyed operators and a seeded third of the generic ones; thorough: all); loader-rejected mutants are skipped; each remaining mutant is generated under recover() in a worker process (a dead or hung worker is a crash), a sample and all crashing mutants also through the CLI; TLC applies the protocol. Absence of panics is observed, not modelled (exploration).",
+  note="'Located' = the message contains a specific name on the pointer path to the fault (or, for faults inside components, the path key where the component is used). Two open findings (unlocated template errors, self-referencing schema overflows the stack) carry TLA+ selectors; three defects were repaired.")
+
 NOT_YET = {}
 
 def main():
